@@ -450,7 +450,10 @@ impl WideElement<'_> {
         buf: &mut String,
         width: u16,
     ) -> String {
-        let left = (width as usize).saturating_sub(measure_text_width(&cur.replace('\x00', "")));
+        // The text may hold several lines (newlines in a message or prefix); the wide element
+        // shares the terminal width with the rest of its own line only.
+        let line = cur.split('\n').find(|l| l.contains('\x00')).unwrap_or(&cur);
+        let left = (width as usize).saturating_sub(measure_text_width(&line.replace('\x00', "")));
         match self {
             Self::Bar { alt_style } => cur.replace(
                 '\x00',
